@@ -51,7 +51,10 @@ Definition must_ok (tc : tcase) (i : nat) : bool :=
   end.
 
 Definition musts_ok (c : c15case) : bool :=
-  forallb (fun p => forallb (must_ok (fst p)) (snd p)) (combine (c_types (ca c)) (c_must c)).
+  match c_err (ca c) with
+  | IOk => forallb (fun p => forallb (must_ok (fst p)) (snd p)) (combine (c_types (ca c)) (c_must c))
+  | _ => true       (* select raised: judged by C14 (and by the equal-error clause), not here *)
+  end.
 
 Definition ties15 (c : c15case) : bool :=
   existsb (fun tc => has_ties (tc_in tc) || has_boundary (tc_in tc)) (c_types (ca c))
